@@ -14,6 +14,10 @@ GetWhy(ev) ==
   ELSE IF ref.r = "err" THEN (IF ev.ok THEN "missing-or-unusable-accepted" ELSE "")
   ELSE IF ref.r = "elem" THEN (IF ~ev.ok THEN "existing-element-rejected" ELSE IF ev.val # ref.v THEN "wrong-element" ELSE "")
   ELSE IF ev.ok /\ d.kind \in {"seq", "map"} /\ ev.val \notin ElemValues(d) THEN "not-an-element"
+  (* the same lookup written c[k] in a template yields GetAttr's element, and null where GetAttr reports an error *)
+  ELSE IF ev.tpl = "panic" THEN "template-subscript-panics"
+  ELSE IF ev.tpl = "ran" /\ ev.ok /\ ev.tplval # ev.val THEN "template-subscript-differs-from-GetAttr"
+  ELSE IF ev.tpl = "ran" /\ ~ev.ok /\ ev.tplval # Null THEN "template-subscript-invents-an-element"
   ELSE ""
 Why(ev) == IF ev.k = "getattr" THEN GetWhy(ev)
            ELSE IF ev.panicked THEN "panic" ELSE IterWhy(Desc(ev.cid), ev)
